@@ -142,7 +142,22 @@ def judge_maven(c, o, which="expect"):
         bad.append("NOOP-DIFFERS no updates, yet values changed: %s" % o["changed"])
     if o["nreq"][1] - o["nreq"][0] != (1 if c["add"] else 0):
         bad.append("NREQ number of requirements changed from %d to %d" % tuple(o["nreq"]))
+    bad += judge_plugin(c, o)
     return bad
+
+
+def judge_plugin(c, o):
+    """the dependency of the managed plugin (outside ManifestWrite.tla's entries): updated exactly when addressed"""
+    if not c["layout"].get("plugins"):
+        return []
+    want = o.get("plg_want") or "1.0"
+    if o.get("plg_read") != want:
+        return ["%s the managed plugin's dependency org.plugdep:pd re-reads as %s, expected %s (update %s; Write returned nil)"
+                % ("PLUGIN-NOT-APPLIED" if o.get("plg_want") else "PLUGIN-CHANGED", o.get("plg_read"), want,
+                   "1.0 -> " + o["plg_want"] if o.get("plg_want") else "none")]
+    if (o.get("plg_text") or "") != (o.get("plg_want") or ""):
+        return ["PLUGIN-TEXT the <version> of the managed plugin's dependency was rewritten to %r, expected %r" % (o.get("plg_text"), o.get("plg_want") or "unchanged")]
+    return []
 
 
 def predicted_lost(c, comment_fixed):
@@ -159,6 +174,8 @@ def matches_asbuilt(c, o, comment_fixed):
     ab = c["expect_asbuilt"]
     if sorted(o.get("lost") or []) != predicted_lost(c, comment_fixed):
         return False
+    if not (o["panic"] or o["err"] or not o["written"]) and judge_plugin(c, o):
+        return False      # no open finding concerns the managed plugin's dependency
     if o["panic"] or o["err"] or not o["written"]:
         return False
     if c["add"]:
